@@ -402,7 +402,7 @@ def rule_flow_err(ctx):
         ok = hq.is_try_propagated(pm, c)
         ctx.add("FLOW-ERR", "Vampire::prove:%s" % hq.last(callee_generic(c) or "?", 2), ok, ctx.site(vp, c),
                 "fallible call %s is propagated with `?` (mapped into VampireError)" % hq.render(c)[:80])
-    ctx.floor("FLOW-ERR", "vampire_fallible_calls", n, 4)
+    ctx.floor("FLOW-ERR", "vampire_fallible_calls", n, 2)
     tf = fx.fn("try_from", impl_self="verifying::prover::vampire::VampireOutput")
     pm = hq.parent_map(tf["body"])
     cs = hq.calls(tf["body"], "String::from_utf8")
@@ -525,7 +525,7 @@ def rule_worker_panics(ctx):
                     "%d panic site(s) of kind `%s` in %s: a panic in a pool worker drops that problem's report, and the remaining reports can still say success" % (cnt, kind, fn))
         else:
             ctx.add("FLOW-MONO", "worker-panic:%s|%s" % (hq.last(fn, 2), kind), cnt <= ent[0], "%s:%s" % (f, l), "%d site(s) (table %d): %s" % (cnt, ent[0], ent[1]))
-    ctx.floor("FLOW-MONO", "worker-panic-sites", n, 4)
+    ctx.count("worker_panic_sites", n)  # no floor: removing a panic site is an improvement
 
 
 RULES = [rule_flow_mono, rule_status_tables, rule_once, rule_bytes, rule_flow_err, rule_names, rule_worker_panics]
